@@ -108,9 +108,11 @@ let with_case toks k =
   | [mpr; kopts; res; unk; prx; hact; loc; dg] ->
       let cfg0 = parse_cfg mpr kopts res unk prx in
       let hr = parse_hact hact in
-      let mc = (loc = "m") in
+      let mc_at i = loc.[min i (String.length loc - 1)] = 'm' in
       let asy = hact_async hact in
-      let rec steps cfg parts =
+      let rec steps i cfg parts =
+        let steps cfg tl = steps (i + 1) cfg tl in
+        let mc = mc_at i in
         match parts with
         | [] -> []
         | part :: tl ->
@@ -124,7 +126,7 @@ let with_case toks k =
                  let cfg' = if asy && ran && not (List.mem req.m_token cfg.c_async)
                    then { cfg with c_async = req.m_token :: cfg.c_async } else cfg in
                  shown :: steps cfg' tl) in
-      String.concat " | " (steps cfg0 (String.split_on_char '+' dg))
+      String.concat " | " (steps 0 cfg0 (String.split_on_char '+' dg))
   | _ -> failwith "c10 args"
 
 let c10 toks = with_case toks (fun cfg h mc req -> show_out (dp_serve cfg h mc req))
